@@ -71,7 +71,6 @@ MENU = (
 JOINS = (
     ("join", ("K",), None, False),
     ("join", ("K",), spaces.P_D_GT_A, False),
-    ("join", ("K",), None, True),
     ("join", ("Kc",), None, False),
     ("join", ("Kx",), None, False),
 )
@@ -190,6 +189,10 @@ class C03(Check):
                 tr.count("engine_error_as_documented")
             elif isinstance(e, EngineError) and inner[0] == "join" and not do_tr:
                 tr.count("join_engine_error_no_transfer")
+            elif type(e).__name__ == "RelationalAlgebraError":
+                # the documented row-order-loss refusal (C11): moving the operation into the SQL engine would
+                # bury a sort; C03 only forbids ColumnError (and EngineError outside require_preferred_engine)
+                tr.count("order_loss_refusal_as_documented")
             elif isinstance(e, ColumnError):
                 tr.violation("valid-call-rejected-ColumnError", f"valid at the root but preferred-engine call raised ColumnError: {str(e)[:200]}")
             else:
